@@ -645,6 +645,8 @@ func checkC06(c *Ctx) {
 	checkMemberDeleteLeavesTiers(c, "R11")
 	c.Rule("R12", "every endpoint event reaches the host set: each processor's add/remove/replace handler hands the event's own list to host.Set.Add/Remove/ReplaceAll on every path (the empty-list return aside)")
 	checkEndpointEventsReachSet(c, "R12")
+	c.Rule("R14", "random sources shared by connection goroutines are goroutine-safe: a *rand.Rand (which is not) kept in a package-level variable or a field is only used under a mutex")
+	checkSharedRandSource(c, "R14")
 	c.Rule("R13", "the policy in force is the configured one (shared with C08.R5): a processor's configuration is replaced only after every fallible step of the update succeeded - otherwise a refused update leaves the new policy recorded but the old balancer in place, and no later update rebuilds it")
 	c.withAlias(map[string]string{"R5": "R13", "R1": "", "R2": "", "R3": "", "R4": "", "R6": "", "R7": "", "R8": "", "R9": "", "R10": "", "R11": "", "R12": "", "R13": ""}, func() { checkC08(c) })
 	// the snapshot given to the balancer is current only if every tier change rebuilds the cache
@@ -802,7 +804,7 @@ func randSourceNonNegative(p *Prog, g *ssa.Global) bool {
 		if !isRet || len(ret.Results) != 1 {
 			return false
 		}
-		if call, isCall := returnedValues(ret)[0].(*ssa.Call); isCall && isCallTo(call, "math/rand.Int", "math/rand.Intn", "math/rand.Int63", "math/rand.Int31") {
+		if call, isCall := returnedValues(ret)[0].(*ssa.Call); isCall && isCallTo(call, "math/rand.Int", "math/rand.Intn", "math/rand.Int63", "math/rand.Int31", "(*math/rand.Rand).Int", "(*math/rand.Rand).Intn", "(*math/rand.Rand).Int63", "(*math/rand.Rand).Int31") {
 			ok = true
 		}
 	}
@@ -1121,5 +1123,55 @@ func checkEndpointEventsReachSet(c *Ctx, rule string) {
 	}
 	if n < 6 {
 		c.Unresolved(rule, fmt.Sprintf("expected the endpoint handlers of the TCP and the Redis processor (6), found %d", n))
+	}
+}
+
+// checkSharedRandSource (C06.R14): PickHost runs in one goroutine per accepted connection. The top-level functions of
+// math/rand lock their source; a *rand.Rand does not - concurrent Int() calls corrupt the source's indices and it then
+// panics inside PickHost, in a connection goroutine nobody recovers: the process dies and no member of the candidate
+// list is selected for anybody.
+func checkSharedRandSource(c *Ctx, rule string) {
+	p := c.P
+	n := 0
+	for _, rel := range []string{"proc/internal/lb", "host", "proc/tcp", "proc/redis", "proc"} {
+		var le *lockEngine
+		for _, fn := range p.FuncsIn(rel) {
+			if p.isTestFn(fn) {
+				continue
+			}
+			eachInstr(fn, func(_ *ssa.BasicBlock, _ int, in ssa.Instruction) {
+				cc := callOf(in)
+				if cc == nil {
+					return
+				}
+				g := calleeFn(cc)
+				if g == nil || g.Signature.Recv() == nil || types.TypeString(g.Signature.Recv().Type(), nil) != "*math/rand.Rand" || len(cc.Args) == 0 {
+					return
+				}
+				shared := derives(cc.Args[0], func(v ssa.Value) bool {
+					if u, ok := v.(*ssa.UnOp); ok && u.Op == token.MUL {
+						if _, isG := u.X.(*ssa.Global); isG {
+							return true
+						}
+						if _, isFA := u.X.(*ssa.FieldAddr); isFA {
+							return true
+						}
+					}
+					return false
+				})
+				if !shared {
+					return
+				}
+				n++
+				if le == nil {
+					le = newLockEngine(p, rel)
+				}
+				site := fmt.Sprintf("%s uses a shared *rand.Rand#%d under a lock", fnKey(fn), n)
+				c.Check(len(le.before[in]) > 0, rule, site, in.Pos(), "a mutex is held", "a *rand.Rand kept in a package-level variable or field is used by concurrent goroutines without a lock: rand.Rand is not goroutine-safe - overlapping calls corrupt the source's state and it panics (index out of range) inside PickHost, in a connection goroutine that nobody recovers: the process dies")
+			})
+		}
+	}
+	if n == 0 {
+		c.OK(rule, "no shared *rand.Rand", token.NoPos, "only the locked top-level functions of math/rand are used")
 	}
 }
